@@ -283,6 +283,11 @@ func (e *emitter) Header(
 }
 
 func (e *emitter) Message(data []byte, streamEnded bool) error {
+	if data == nil && streamEnded {
+		// The adapter reports an end of stream that carried no message as a nil message. Forward
+		// only the end of stream; a length prefix here would put an extra, empty message on the wire.
+		return e.sink.Data(nil, true)
+	}
 	// Applies compression to `data` depending on `adapter`'s state.
 	if e.adapter.compressed {
 		switch e.adapter.encoding {
